@@ -164,14 +164,20 @@ Proof.
   - reflexivity.
 Qed.
 
-Lemma hash_parse_ok off : readable img off (spec_Elf_Hash (i_le s)) = true ->
-  exists r, struct_parse_at (gen_Elf_Hash (c_le C) (c_is64 C)) [] (c_img C) off = Ok r.
+Lemma core_machine : hty (c_hdr C) "e_machine" = exp_machine s.
+Proof. reflexivity. Qed.
+
+Lemma hash_parse_ok off : readable img off (spec_hash_layout s) = true ->
+  exists r, struct_parse_at (hash_layout C) [] (c_img C) off = Ok r.
 Proof.
-  intros H. apply struct_parse_at_readable with (L := spec_Elf_Hash (i_le s)).
-  - apply gen_Elf_Hash_gabi.
-  - exact H.
-  - pose proof (wf_len img s Hwf). rewrite SEEK_LIMIT_val. assumption.
-  - reflexivity.
+  intros H. unfold hash_layout. rewrite core_machine.
+  change (c_is64 C) with (i_is64 s). change (c_le C) with (i_le s).
+  unfold spec_hash_layout in H.
+  destruct (hash_is_wide (i_is64 s) (exp_machine s)).
+  - apply struct_parse_at_readable with (L := Elf_Hash_wide (i_le s)); [reflexivity|exact H| |reflexivity].
+    pose proof (wf_len img s Hwf). rewrite SEEK_LIMIT_val. assumption.
+  - apply struct_parse_at_readable with (L := spec_Elf_Hash (i_le s)); [apply gen_Elf_Hash_gabi|exact H| |reflexivity].
+    pose proof (wf_len img s Hwf). rewrite SEEK_LIMIT_val. assumption.
 Qed.
 Lemma gnuhash_parse_ok off : readable img off (spec_Gnu_Hash (i_le s) (i_is64 s)) = true ->
   exists r, struct_parse_at (gen_Gnu_Hash (c_le C) (c_is64 C)) [] (c_img C) off = Ok r.
